@@ -96,7 +96,10 @@ codegen-units = 64
 def cargo_check(crate_dir, modules):
     os.makedirs(os.path.join(crate_dir, "src"), exist_ok=True)
     os.makedirs(os.path.join(crate_dir, ".cargo"), exist_ok=True)
-    gen.write_if_changed(os.path.join(crate_dir, "Cargo.toml"), CHECK_TOML)
+    # a package name of its own per check crate: same-named packages sharing one target directory
+    # can be taken for each other by cargo's freshness check
+    pkg = "c14crate_" + re.sub(r"\W", "_", os.path.basename(os.path.dirname(os.path.abspath(crate_dir))))
+    gen.write_if_changed(os.path.join(crate_dir, "Cargo.toml"), CHECK_TOML.replace('name = "c14crate"', 'name = "%s"' % pkg))
     gen.write_if_changed(os.path.join(crate_dir, ".cargo", "config.toml"),
                          "[net]\noffline = true\n[build]\ntarget-dir = \"%s\"\n" % gen.GEN_TARGET)
     lock = os.path.join(crate_dir, "Cargo.lock")
@@ -188,11 +191,23 @@ def run(tier, seed):
         die("C14: the check crate fails and no generated module is named by the diagnostics")
     side = [(m_, p) for m_, p in modules if suspect(m_)]
     if side:
-        bad2, err = check_modules(os.path.join(base, "side"), side)
-        if err:
-            print(err)
-            die("C14: the side check crate fails and no generated module is named by the diagnostics")
-        bad.update(bad2)
+        # one small crate per document (a failing crate is re-checked once per round of dropped
+        # modules, and rounds of different documents are independent), checked in parallel
+        groups = {}
+        for m_, p in side:
+            groups.setdefault(by_module[m_][0].name, []).append((m_, p))
+
+        def one_group(item):
+            dn, mods_ = item
+            return check_modules(os.path.join(base, "side_" + dn), mods_)
+
+        with ThreadPoolExecutor(max_workers=min(len(groups), vlib.NCPU)) as ex:
+            outs = list(ex.map(one_group, sorted(groups.items())))
+        for bad2, err in outs:
+            if err:
+                print(err)
+                die("C14: a side check crate fails and no generated module is named by the diagnostics")
+            bad.update(bad2)
     m["evaluations"] += len(modules)
     for mod, errs in bad.items():
         d, c = by_module[mod]
